@@ -5,7 +5,8 @@
 EXTENDS Reduction, Json
 
 OldKinds == {"alias", "palias", "const", "sum", "inc", "lag", "exo", "time"}
-NewKinds == {"neg", "sq", "nsq", "dbl", "diff"}
+NewKinds == {"neg", "negs", "negb", "sq", "nsq", "dbl", "diff", "prod", "quo"}
+Spellings == {"negs", "negb"}            \* only offered for the first variable
 AllKinds == OldKinds \cup NewKinds
 BothICs  == {NoIC, 3}
 
@@ -15,9 +16,9 @@ MC_Vars4 == << "x", "y", "x1", "y1" >>       \* names that are prefixes of each 
 MC_ExoPaths == ("x" :> << 1, 2, 4, 7 >>) @@ ("y" :> << 2, 6, 1, 4 >>) @@ ("w" :> << 6, 1, 2, 9 >>)
             @@ ("x1" :> << 6, 1, 2, 9 >>) @@ ("y1" :> << 4, 0, 8, 3 >>)
 
-MC_KindsAll3 == << AllKinds, AllKinds, AllKinds >>
+MC_KindsAll3 == << AllKinds, AllKinds \ Spellings, AllKinds \ Spellings >>
 MC_ICsAll3   == << BothICs, BothICs, BothICs >>
-MC_KindsAll4 == << AllKinds, AllKinds, AllKinds, AllKinds >>
+MC_KindsAll4 == << AllKinds, AllKinds \ Spellings, AllKinds \ Spellings, AllKinds \ Spellings >>
 MC_ICsAll4   == << BothICs, BothICs, BothICs, BothICs >>
 
 KindsOf(f) == { f[x].kind : x \in DOMAIN f }
@@ -27,14 +28,15 @@ NumICs(c)  == Cardinality({ x \in DOMAIN c : c[x] # NoIC })
 (* the third variable carrying no initial condition:                                             *)
 (*   A  first two variables of the kinds without sign / power / product, third  u + 1  or a lag  *)
 (*   B  first variable a (negated / plain / plus-) alias, second a base (constant, lag, path,    *)
-(*      time) or again an alias / negation, third a USE: u**2, -u**2, 2*u, u - v, -u             *)
+(*      time) or again an alias / negation, third a USE: u**2, -u**2, 2*u, u - v, -u, u * v,     *)
+(*      u / v (base of a power, after a unary minus, in a product, as divisor)                   *)
 (*      -> contains every pair (negated alias, square of it)                                     *)
 MC_LineQuick(i, d, ic, a, c) ==
     \/ i <= 2
     \/ /\ i = 3 /\ ic = NoIC
        /\ \/ d.kind \in {"inc", "lag"} /\ KindsOf(a) \subseteq OldKinds
           \/ /\ d.kind \in NewKinds
-             /\ a[Vars[1]].kind \in {"neg", "alias", "palias"}
+             /\ a[Vars[1]].kind \in {"neg", "negs", "negb", "alias", "palias"}
              /\ a[Vars[2]].kind \in {"const", "lag", "exo", "time", "neg", "alias"}
 
 (* thorough: every system over 3 variables of the kinds of slice A (any initial conditions) and   *)
